@@ -4,7 +4,7 @@
    for every world the run is consistent with (World.wrun), every fault pattern and - through wok, which
    speaks about every intermediate state - every crash point at library-call granularity. *)
 From TV Require Import Prelude.Str Prelude.PosixPath Logic.Reply Prog.Prog World.World Cmd.Put Cmd.Scan Cmd.Empty Cmd.Rm
-  Proofs.ProgProofs Proofs.OrigLocProofs Proofs.PathProofs Proofs.WorldProofs Proofs.EmptyProofs Proofs.PurgeProofs Proofs.OrderProofs.
+  Proofs.ProgProofs Proofs.OrigLocProofs Proofs.PathProofs Proofs.WorldProofs Proofs.EmptyProofs Proofs.PurgeProofs Proofs.OrderProofs Proofs.DecisionProofs.
 Open Scope N_scope.
 
 Lemma all_runs_and {A} (m : prog A) : forall (P Q : trace -> outcome A -> Prop),
@@ -140,4 +140,39 @@ Theorem rm_payload_gone_lemma o : all_runs (fun t _ => forall s, wok payload_gon
 Proof.
   generalize (all_runs_and _ _ _ (rm_targets_inside_lemma o) (rm_ordered_lemma o)). apply all_runs_mono.
   intros t out [Hf Ha] s. eapply order_world; eauto. intros P HP. discriminate HP.
+Qed.
+
+(* ---------------------------------------------------------------- C10 on the world *)
+(* with a DAYS argument, whatever trash-empty changes lies at or below a path the decision monitor approved: the info file or
+   the payload of an entry whose contents, as just read, were older than the threshold, or a payload whose info was found
+   missing.  Every other path of every file system the run is consistent with is what it was. *)
+Lemma dec_targets days envnow dd : days = Some dd -> forall t st st',
+  accepts (decision_step days envnow) st t = Some st' ->
+  (forall x, In x (d_approved st) -> In x (d_approved st')) /\
+  Forall (fun p => match fst p with Remove q | Rmtree q => In q (d_approved st') | _ => True end) t.
+Proof.
+  intros Hd. induction t as [|[o r] t IH]; intros st st' Ha; simpl in Ha.
+  - inversion Ha; subst. split; [auto|constructor].
+  - destruct (decision_step days envnow st o r) as [st1|] eqn:Es; [|discriminate].
+    destruct (IH st1 st' Ha) as [Hg Hf].
+    assert (Hg1 : forall x, In x (d_approved st) -> In x (d_approved st1)).
+    { revert Es. unfold decision_step. rewrite Hd.
+      repeat (match goal with |- context [match ?x with _ => _ end] => destruct x end);
+      intros H; inversion H; subst; simpl; auto. }
+    split; [auto|]. constructor; [|exact Hf]. simpl.
+    destruct o; try exact I; apply Hg; unfold decision_step in Es; rewrite Hd in Es;
+      (destruct (mem_str _ (d_approved st)) eqn:Em; [|destruct r; discriminate]);
+      assert (st1 = st) by (destruct r; inversion Es; reflexivity); subst st1; apply mem_str_In; exact Em.
+Qed.
+
+Theorem empty_days_world_lemma o dd : eo_days o = Some dd -> Forall clean (eo_trash_dirs o) ->
+  all_runs (fun t _ => forall st, accepts (decision_step (eo_days o) (env_now (eo_environ o))) (mkdst None []) t = Some st ->
+              forall q, (forall p, In p (d_approved st) -> under p q = false) ->
+              forall s s', wrun s t s' -> wfs s' q = wfs s q) (empty_main o).
+Proof.
+  intros Hd Hc. generalize (empty_targets_inside_lemma o Hc). apply all_runs_mono.
+  intros t out Hf st Ha q Hq s s' Hr. eapply wrun_removals; [|exact Hr].
+  destruct (dec_targets _ _ dd Hd t _ _ Ha) as [_ Ht].
+  rewrite Forall_forall in *. intros [op r] Hin. specialize (Hf _ Hin). specialize (Ht _ Hin). simpl in *.
+  destruct op; simpl in Hf; try contradiction; try reflexivity; apply Hq; exact Ht.
 Qed.
